@@ -98,6 +98,19 @@ class AbstractDissimilarity(metaclass=ABCMeta):
                                      f"Exception found :\n "
                                      f"d({unit}, {unit}) = {self.d_mat(unit, unit)}")
 
+    def _category_index(self, categories: SortedSet, annotation: Optional[str]) -> int:
+        """
+        Index standing for a unit's category in the array representations. Unlabelled units all share
+        one index past the last category; they cannot be used with a dissimilarity defined over a
+        fixed set of categories.
+        """
+        if annotation is None:
+            if self.categories is not None:
+                raise ValueError("Units without annotation cannot be used with a dissimilarity "
+                                 "that is defined over a set of categories.")
+            return len(categories)
+        return categories.index(annotation)
+
     def _build_arrays_continuum(self, continuum: 'Continuum') -> nb.typed.List:
         """
         Builds the compact, array-shaped representation of a continuum.
@@ -123,7 +136,7 @@ class AbstractDissimilarity(metaclass=ABCMeta):
                 unit_array[unit_id][0] = unit.segment.start
                 unit_array[unit_id][1] = unit.segment.end
                 unit_array[unit_id][2] = unit.segment.duration
-                unit_array[unit_id][3] = categories.index(unit.annotation)
+                unit_array[unit_id][3] = self._category_index(categories, unit.annotation)
             unit_arrays.append(unit_array)
         return unit_arrays
 
@@ -152,7 +165,7 @@ class AbstractDissimilarity(metaclass=ABCMeta):
                     alignment_array[i, annotator_i, 0] = unit.segment.start
                     alignment_array[i, annotator_i, 1] = unit.segment.end
                     alignment_array[i, annotator_i, 2] = unit.segment.duration
-                    alignment_array[i, annotator_i, 3] = categories.index(unit.annotation)
+                    alignment_array[i, annotator_i, 3] = self._category_index(categories, unit.annotation)
                 else:
                     alignment_array[i, annotator_i] = np.array([-1, -1, -1, -1], dtype=np.float32)
         return alignment_array
